@@ -246,3 +246,112 @@ def c17(tier, seed):
     out.assumptions = [STAR_ASSUME, "group_shares is called natively (rlib), not through a WASM runtime"]
     _recover_family(out, "C17", ["Star_q_honest.cfg"] + (["Star_t_honest.cfg"] if thorough else []), seed, 8)
     return out
+
+
+def _sharded_trace(out, pid, module, cfg, record_cmd_fn, shards, label):
+    """Record `shards` traces with the harness and validate them with parallel TLC processes."""
+    import concurrent.futures
+    wd = workdir(pid + "-shards")
+    jobs = []
+    for k in range(shards):
+        tr = os.path.join(wd, f"t{k}.ndjson")
+        cmd = record_cmd_fn(k, tr)
+        out.add_vh(run_vh(cmd, timeout=3000), only={pid})
+        jobs.append((tr, cmd))
+    def one(j):
+        return validate_trace(module, cfg, j[0], timeout=3000, tag=f"{pid}-tv{os.path.basename(j[0])}")
+    with concurrent.futures.ThreadPoolExecutor(max_workers=min(6, shards)) as ex:
+        results = list(ex.map(one, jobs))
+    for (tr, cmd), (res, rej) in zip(jobs, results):
+        out.states += res.states
+        out.transitions += max(res.generated - 1, 0)
+        out.extra.setdefault("trace_validation", []).append(
+            {"spec": module, "events": sum(1 for _ in open(tr)), "accepted": rej is None, "wall_s": round(res.wall, 1)})
+        if rej is not None:
+            ev = rej.get("ev", {})
+            evname = ev.get("ev", "?") if isinstance(ev, dict) else str(rej.get("invariant"))
+            opname = ev.get("op", ev.get("dec", "")) if isinstance(ev, dict) else ""
+            out.violations.append({
+                "property": pid, "site": module, "input_class": f"trace-rejected:{evname}:{opname}",
+                "detail": f"recorded {label} disagrees with the specification evaluated by TLC; first unmatched event: "
+                          + json.dumps(rej)[:1500],
+                "replay": {"trace": tr, "rejected": rej}, "cmd": [str(c) for c in cmd]})
+            out.traces -= min(out.traces, 1)
+
+
+@check("C07")
+def c07(tier, seed):
+    out = Outcome("C07", tier, seed, "exploration")
+    thorough = tier == "thorough"
+    out.rule = ("each event is one call of add/sub/neg/double/mul/square/invert/pow/sqrt/from_repr/to_repr of "
+                "star_sharks::Fp on operands from a boundary lattice (0, 1, 2^64, 2^128, (p-1)/2, p-1, 12451 +-1, ...) crossed "
+                "with itself plus seeded uniform operands, and TLC recomputes it with Fp129.tla (base-256 limb arithmetic); "
+                "distinct = distinct (operation, operands); the published constants are checked by ConstantsOK; the limb "
+                "algorithms themselves are validated against native integers and ring axioms (MC_Fp)")
+    out.assumptions = ["(p-1)/2 = 2^127+6225 is prime (checked once with sympy, trusted by the generator criterion)",
+                       "element values are read through to_repr; a consistently wrong encoding would fail the from/to events"]
+    r = run_tlc("MC_Fp", "MC_Fp.cfg", workers=1, timeout=600, tag="C07-selfcheck")
+    out.add_tlc(r, "MC_Fp (self-check of the TLA+ big-integer arithmetic)")
+    out.extra["spec_selfcheck_states"] = r.states
+    n = 4000 if thorough else 700
+    shards = 12 if thorough else 3
+    _sharded_trace(out, "C07", "Trace_Field", "Trace_Field.cfg",
+                   lambda k, tr: ["field-record", "--out", tr, "--seed", seed + k, "--n", n,
+                                  "--sqrt-full", 8 if thorough else 3, "--pow-full", 3 if thorough else 1],
+                   shards, "field operation log")
+    return out
+
+
+def _shamir_small(out, cfgs):
+    for c in cfgs:
+        r = run_tlc("MC_ShamirSmall", c, workers=8, timeout=1500, tag="shamir-" + c[:-4], heap="8g")
+        out.add_tlc(r, "MC_ShamirSmall/" + c)
+
+
+@check("C02")
+def c02(tier, seed):
+    out = Outcome("C02", tier, seed, "model_checking")
+    thorough = tier == "thorough"
+    out.rule = ("(i) TLC enumerates every inbox sequence over mixtures of sharings with forged thresholds (thr-, thr0, thr+ at "
+                "every position), duplicates and foreign shares and checks NoSubThresholdRecovery; each behaviour is executed "
+                "on real encoded shares; (ii) the knowledge closure Know(obs) over every observation subset reveals no secret "
+                "below threshold (SubThresholdSecrecy) and every encoded report is byte-scanned for the secrets obtained "
+                "through the public API; (iii) a coefficient vector interpolated from t inner shares (untrusted witness) is "
+                "verified by TLC over Fp129: all t+2 shares lie on it, exact degree t-1, non-constant coefficients non-zero, "
+                "pairwise distinct and disjoint between groups; perfect secrecy is checked exhaustively over GF(5), GF(7); "
+                "distinct = (valuation, inbox) with a predicted refusal + scanned reports + certified groups")
+    out.assumptions = [STAR_ASSUME, "secrecy is decided structurally (which values are visible / derivable), not as a reduction"]
+    _star_secrecy(out, "Star_secrecy.cfg")
+    _star_secrecy(out, "Star_secrecy_t.cfg")
+    _shamir_small(out, ["Shamir_secrecy_q5.cfg", "Shamir_secrecy_q7.cfg", "Shamir_q5_t3.cfg"] +
+                  (["Shamir_q7_t3.cfg", "Shamir_q5_t2.cfg"] if thorough else []))
+    _recover_family(out, "C02", ["Star_q_faults.cfg", "Star_q_honest.cfg"] + (["Star_t_faults.cfg"] if thorough else []),
+                    seed, 6 if thorough else 4)
+    _star_big(out, "C02", seed, thorough)
+    out.add_vh(run_vh(["secret-scan", "--seed", seed, "--n", 200 if thorough else 40]), only={"C02"})
+    _sharded_trace(out, "C02", "Trace_Shamir", "Trace_Shamir.cfg",
+                   lambda k, tr: ["cert-record", "--out", tr, "--seed", seed + k, "--groups", 8 if thorough else 5,
+                                  "--maxt", 64 if thorough else 16],
+                   4 if thorough else 1, "polynomial certificate")
+    return out
+
+
+@check("C06")
+def c06(tier, seed):
+    out = Outcome("C06", tier, seed, "exploration")
+    thorough = tier == "thorough"
+    out.rule = ("dealing through Sharks::dealer_rng with clonable random sources (ChaCha and structured streams), the expected "
+                "coefficients obtained by running the same source through Fp::random; every share (iterator and random "
+                "points) and every recovery (exact, permuted+duplicated, surplus, too few, empty, ragged) is logged and "
+                "re-evaluated by TLC with Shamir.tla over Fp129: y = Horner(draws ++ secret, x), iterator points 1,2,3.., "
+                "x != 0, refusal rules, result = constant terms; distinct = distinct (dealing, selection) and refusals; "
+                "Shamir.tla itself is model-checked exhaustively over GF(5), GF(7), GF(13) against Lagrange interpolation")
+    out.assumptions = ["thresholds above the TLC-checked bound (24 quick / 96 thorough) get round-trip and refusal checks only",
+                       "Fp::random (third-party ff derive) defines how a random source is turned into field elements"]
+    _shamir_small(out, ["Shamir_q5_t1.cfg", "Shamir_q5_t2.cfg", "Shamir_q5_t3.cfg", "Shamir_q7_t1.cfg"] +
+                  (["Shamir_q7_t2.cfg", "Shamir_q7_t3.cfg", "Shamir_q13_t2.cfg"] if thorough else []))
+    _sharded_trace(out, "C06", "Trace_Shamir", "Trace_Shamir.cfg",
+                   lambda k, tr: ["shamir-record", "--out", tr, "--seed", seed + k, "--deals", 16 if thorough else 10,
+                                  "--maxt", 96 if (thorough and k == 0) else (40 if thorough else 24), "--big", 1 if k == 0 else 0],
+                   8 if thorough else 2, "Shamir dealing/recovery log")
+    return out
